@@ -51,7 +51,7 @@ def w_value(v):
     return [tag, str(x)]
 
 
-WIRE_KIND = {'csv': 'csv', 'tsv': 'csv', 'xlsx': 'csv', 'parquet': 'columnar', 'feather': 'columnar', 'orc': 'columnar', 'json': 'json', 'xml': 'xml',
+WIRE_KIND = {'pydict': 'json', 'pyjson': 'json', 'pylist': 'columnar', 'csv': 'csv', 'tsv': 'csv', 'xlsx': 'csv', 'parquet': 'columnar', 'feather': 'columnar', 'orc': 'columnar', 'json': 'json', 'xml': 'xml',
              'view': 'view', 'sqltable': 'sqltable', 'sqlquery': 'sqlquery', 'frame': 'frame'}
 
 
@@ -219,6 +219,13 @@ def render_source(V, src, style, paths):
         return '%s [ %s %s ]' % (_p(V.logical_source), _p(V.table_name), ttl_str(src['table']))
     if kind in ('sqlquery', 'view'):
         return '%s [ %s %s ]' % (_p(V.logical_source), _p(V.sql_query), ttl_str(src['query']))
+    if kind in ('frame', 'pydict', 'pyjson', 'pylist'):
+        SD = 'https://w3id.org/okn/o/sd#'
+        parts = ['%s [ a %s ; %s %s ]' % (_p(V.source), _p(SD + 'DatasetSpecification'), _p(SD + 'name'), ttl_str('var_' + src['key']))]
+        parts.append('%s %s' % (_p(V.reffor), _p(RML + {'frame': 'DataFrame', 'pylist': 'DataFrame', 'pydict': 'Dictionary', 'pyjson': 'Dictionary'}[kind])))
+        if kind in ('pydict', 'pyjson'):
+            parts.append('%s %s' % (_p(RML + 'iterator'), ttl_str('$.rows[*]')))
+        return '%s [ %s ]' % (_p(V.logical_source), ' ; '.join(parts))
     if style.vocab == 'r2rml':
         # R2RML has no file sources: the logical table is given by file_path in the configuration
         return '%s [ %s %s ]' % (_p(V.logical_source), _p(V.table_name), ttl_str('unused'))
@@ -399,6 +406,7 @@ def write_frame_file(path, kind, cols, rows):
 
 
 FILE_KINDS = ('csv', 'tsv', 'json', 'xml', 'parquet', 'feather', 'orc', 'xlsx')
+MEMORY_KINDS = ('frame', 'pydict', 'pyjson', 'pylist')
 
 
 def materialise_files(case, wd, style=None, name='m'):
@@ -433,6 +441,8 @@ def materialise_files(case, wd, style=None, name='m'):
             write_csv(os.path.join(wd, fn), s['cols'], s['rows'], ',')
             s['query'] = s.get('query_template', "SELECT * FROM '{path}'").format(path=fn)
             paths[s['key']] = fn
+        elif kind in ('frame', 'pydict', 'pyjson', 'pylist'):
+            paths[s['key']] = None
         elif kind in ('sqltable', 'sqlquery'):
             s.setdefault('table', 't%d' % i)
             if kind == 'sqlquery':
@@ -481,6 +491,16 @@ def materialise_layout(case, wd, layout, style=None, name='m', relative_ids=Fals
             opts['db_url'] = 'sqlite:///' + name + '.db'
         sections.append(('DS%d' % si, opts))
     return config_text(case, sections)
+
+
+def python_sources(case):
+    """{variable name: spec} for the in-memory sources of a case (built into objects inside the worker)"""
+    out = {}
+    for s in case['sources']:
+        if s.get('kind') in ('frame', 'pydict', 'pyjson', 'pylist'):
+            out['var_' + s['key']] = {'type': s['kind'], 'cols': list(s['cols']), 'rows': [[plain_value(v) for v in r] for r in s['rows']],
+                                     'null_style': s.get('null_style', 'null')}
+    return out
 
 
 def config_text(case, sections, extra=None):
